@@ -26,6 +26,16 @@ claim("C02",
       "Trusted: Lean kernel, 3 axioms, extractor, oracle hooks, generator (which names carry the must-go stem). Not modelled: compiler, assembler, linker output; sampled by the scan.",
       "Lean 4 proof (decision exceptions, link flags, importcfg, positions) + oracle/model differential + binary scan", "DESIGN.md 5/C02")
 
+claim("C05",
+      "Lean 4 theorems over a model of the literal obfuscators (decoder IR with one constructor per emitted shape; build = what the Go code computes at obfuscation time; eval = meaning of the emitted decoder), for EVERY plaintext of every length and EVERY outcome of the random draws meeting explicit side conditions: rev_eval (evalOperator vs operatorToReversedBinaryExpr on all bytes), slicelit_roundtrip (external-key statement lists of any length with repeated or out-of-range indexes are undone by the reversed list), byteexpr_roundtrip, simple_roundtrip, seed_roundtrip, swap_roundtrip (forward decoder loop undoes the backward encoder loop, positions may repeat or coincide, Go's tuple-assignment order modelled), shuffle_roundtrip (any permutation of the doubled array, any index-key positions), junk_slice and array_copy for the wrappers. `split` is evaluated by the model and executed for every sample but its roundtrip is not yet a theorem. Tie: for ~220 (obfuscator, seed, plaintext) cases per run the REAL obfuscator emits a decoder, tools/gvgen litparse reads the Go syntax into the IR, the Lean model evaluates it (must equal the plaintext) and the Go compiler compiles and runs the very same decoders (must print the plaintext); whole files go through the real literals.Obfuscate (every syntactic context incl. const/array-length/case-label/-X/nosplit, junk, proxy structs), are compiled and must print what the original prints.",
+      "Trusted: Lean kernel, 3 axioms, extractor, hooks, litparse (syntax to IR), Go compiler as the semantics of the emitted subset. Assumed: math/rand contracts (Intn(n) < n, Perm is a permutation) for well-formedness of the draws.",
+      "Lean 4 proof (encoder/decoder round trips for all inputs and draws) + emitted-decoder evaluation in the model + compile-and-run", "DESIGN.md 5/C05")
+
+claim("C09",
+      "PARTIAL (absence by coincidence is a probability statement). Proved in Lean 4: rewritten_iff_not_exempt - the rewrite decision equals the negation of the property's exemption list, with the 8-byte..2-KiB window taken from constants regenerated from literals.go on every run (theorem window); simple_cipher_differs - for every plaintext and key the stored ciphertext of the simple strategy agrees with the plaintext exactly at the positions whose key byte is zero (an aligned leak needs an all-zero key window), via op_fixed_iff_zero for the three byte operators. Tie: a generated program with a unique high-entropy marker in each of 27 syntactic positions (var initialisers, arguments, returns, composite elements, struct fields, map keys/values, closures, generic functions, init, case labels, concatenations, []byte/[N]byte/&[]byte/&[N]byte literals; lengths 7..2049) is built with the real garble -literals [-seed]; every marker the model says must be rewritten is searched in the binary, together with the seed (text and raw bytes).",
+      "Trusted: Lean kernel, 3 axioms, extractor, marker generator. Not modelled: the compiler's constant handling (sampled by the scan).",
+      "Lean 4 proof (rewrite decision, ciphertext differs from plaintext) + regenerated window constants + binary marker scan", "DESIGN.md 5/C09")
+
 claim("C12",
       "Lean 4 theorems over the model of garble's salt derivation (appendFlags, addGarbleToHash, hashWithPackage, hashWithStruct's salt, runtimeHashWithCustomSalt): seeded names depend only on (seed, import path | struct hash, identifier) for ANY two configurations and action IDs; the seeded pre-image is injective in the path (| separator) and in the seed; unseeded, the addGarbleToHash pre-image is injective in (action ID, garble binary ID, -literals, -tiny, -seed, ctrlflow, GOGARBLE) for all values - proved via unique decodability of the flag tokens and injectivity of base64 (this theorem was false before the fix: commit that hashes GOGARBLE last). Tie: differential histories of the real functions vs. the model over few seeds/paths/names and many configurations, plus the real seed flag parser.",
       "Trusted: Lean kernel, 3 standard axioms, oracle hook + differ. Assumed: SHA-256 collision resistance on the compared pre-images; cmd/go's action ID covers source/tags/GOOS/GOARCH/Go version; import paths contain no '|'.",
